@@ -23,6 +23,7 @@ import (
 	"context"
 	"crypto/tls"
 	"encoding/binary"
+	"encoding/json"
 	"flag"
 	"fmt"
 	"io"
@@ -691,18 +692,42 @@ func runE2E(c *Case) {
 	}
 }
 
+func loadScript(path string) []Case {
+	bs, err := os.ReadFile(path)
+	if err != nil {
+		fmt.Fprintln(os.Stderr, err)
+		os.Exit(2)
+	}
+	var cs []Case
+	if err := json.Unmarshal(bs, &cs); err != nil {
+		fmt.Fprintln(os.Stderr, err)
+		os.Exit(2)
+	}
+	return cs
+}
+
 func main() {
 	seed := flag.Uint64("seed", 1, "seed")
 	n := flag.Int("n", 120, "transport-level scenarios")
 	ne := flag.Int("e2e", 16, "end-to-end scenarios")
 	bound := flag.Int("bound", 10, "observation bound in seconds")
+	script := flag.String("script", "", "JSON file with a list of cases to run instead")
 	child := flag.Bool("child", false, "child mode")
 	from := flag.Int("from", 0, "first case (child)")
 	mem := flag.Uint64("mem", 4<<30, "address-space limit of the child")
 	flag.Parse()
 	waitBound = time.Duration(*bound) * time.Second
+	var scripted []Case
+	if *script != "" {
+		scripted = loadScript(*script)
+		*n, *ne = len(scripted), 0
+	}
 	total := *n + *ne
 	gen := func(i int) Case {
+		if scripted != nil {
+			x := scripted[i]
+			return Case{I: i, Stream: x.Stream, Steps: x.Steps, Fault: x.Fault, Conns: x.Conns, Hold: x.Hold}
+		}
 		if i < *n {
 			return genTL(*seed, i)
 		}
@@ -731,6 +756,9 @@ func main() {
 	}
 	args := []string{"-seed", strconv.FormatUint(*seed, 10), "-n", strconv.Itoa(*n), "-e2e", strconv.Itoa(*ne),
 		"-bound", strconv.Itoa(*bound)}
+	if *script != "" {
+		args = append(args, "-script", *script)
+	}
 	err := hx.RunIsolated(total, args, *mem,
 		func(i int, raw []byte) { os.Stdout.Write(append(raw, '\n')) },
 		func(i int, why string) {
